@@ -99,7 +99,7 @@ def main(tier):
         o2[mask] = np.einsum("ij,gjk->gik", S, o2[mask])
         o2 = np.einsum("gij,kj->gik", o2, Q)
         try:
-            r1 = pairs.run_member(pd, sc, o0, f0, getL, getx)
+            r1 = pairs.run_member(pd, sc, o0, f0, getL, getx, layout=("C", "view")[si % 2])
             r2 = pairs.run_member(pd, sc, o2, f0, getL2, getx2)
         except Exception as e:  # noqa: BLE001
             chk.violation(dict(level="textures", clause="raised", exc=type(e).__name__, fabric=sc["fab"]), f"paired run raised {e!r}", dict(scen=sc))
